@@ -101,7 +101,7 @@ def _c19_report():
 
 CFG = {
  'files': ['bitmap/mask.go', 'bitmap/select.go', 'bitmap/rank.go', 'bitmap/next.go', 'bitmap/slice.go', 'bitmap/toarray.go',
-           'bitmap/get.go', 'bitmap/fromstr32.go', 'bmtree/index.go', 'bmtree/allpaths.go', 'bmtree/decode.go',
+           'bitmap/get.go', 'bitmap/fromstr32.go', 'bitmap/fmt.go', 'bitmap/builder.go', 'bitmap/tailbitmap.go', 'bitmap/of.go', 'bmtree/index.go', 'bmtree/allpaths.go', 'bmtree/decode.go',
            'bitstr/bitstr.go', 'bitword/bitword.go', 'sigbits/sigbits.go', 'sigbits/firstdiff.go', 'sigbits/sharding.go',
            'sigbits/countprefixes.go', 'sigbits/sigbits_countprefixes.go'],
  'go': {'c19.Batch': 'a mixed batch of the listed functions run from T goroutines over shared inputs (harness/c19.go)'},
@@ -121,7 +121,7 @@ CFG = {
  'assumptions': ['sizes as in C01-C17 (64*len(words) < 2^31, 8*len(key) < 2^31); every call is in the domain of its function',
                  'the effect model is as good as the translator (harness/effects: SSA walk, root tracing through IndexAddr/FieldAddr/'
                  'Slice/Phi/Convert/unsafe/uintptr/loads, summaries through calls and closures) and its allow-list of read-only '
-                 'functions outside the module (bytes.Compare/Equal, strings.*, strconv.*, math/bits.*, fmt.Sprint*/Errorf, runtime.KeepAlive, '
+                 'functions outside the module (bytes.Compare/Equal, strings.*, strconv.*, math/bits.*, fmt.Sprint*/Errorf, runtime.KeepAlive, reflect.ValueOf/TypeOf/Value.Kind/Len/Index/Interface, '
                  'github.com/openacid/must); "no shared write in the SSA form" => "the call is a read-only operation" is the trusted '
                  'reading of the model, monitored by the -race runs',
                  'not shown: that the Go compiler and runtime implement read-only functions without hidden shared state'],
